@@ -233,6 +233,26 @@ def twin_scripted(rng, n):
     return out
 
 
+def lazy_join_scripted(rng, n):
+    """a widening result W that still implies a dropped relation (z - x <= a + b from y - x <= a and
+    z - y <= b) is the RIGHT operand of a join, once as it is and once after normalize(): the two
+    joins must answer alike (registers 5 and 6; 6 is the last one, as the twin oracle expects)"""
+    out = []
+    for _ in range(n):
+        x, y, z = rng.sample(range(3), 3)
+        a, b = rng.randint(0, 3), rng.randint(0, 3); c = a + b - rng.randint(1, 3)
+        def le(u, v, k): return ("C le E 2 1 %d -1 %d %d" % (u, v, -k)) if u < v else ("C le E 2 -1 %d 1 %d %d" % (v, u, -k))
+        rel = "%s %s" % (le(y, x, a), le(z, y, b))
+        ops = ["assume 0 3 %s %s" % (rel, le(z, x, c)), "assume 1 2 %s" % rel, "widen 2 0 1",
+               "copy 3 2", "normalize 3"]
+        for v in range(3):
+            ops.append("assign 4 %d E 0 %d" % (v, rng.randint(-1, 1)))
+        ops += ["join 5 4 2", "join 6 4 3", "q_at 5", "q_at 6", "q_csts 5", "q_csts 6",
+                "q_entails 5 %s" % le(z, x, a + b), "q_entails 6 %s" % le(z, x, a + b)]
+        out.append("hist 7 3 ; " + " ; ".join(ops))
+    return out
+
+
 def twin_oracle(line, ans):
     """consecutive  q_at s ; q_at T  /  q_csts s ; q_csts T  (T = the last register) must agree"""
     if ans.startswith("ABORT") or ans == "MISSING" or ans.startswith("HARNESS-ERROR"):
@@ -243,7 +263,7 @@ def twin_oracle(line, ans):
     body = ops[1:]
     for i in range(len(body) - 1):
         a, b = body[i].split(), body[i + 1].split()
-        if a[0] in ("q_at", "q_csts") and b[0] == a[0] and b[1] == T and a[1] != T and i + 1 < len(answers):
+        if a[0] in ("q_at", "q_csts", "q_entails") and b[0] == a[0] and b[1] == T and a[1] != T and a[2:] == b[2:] and i + 1 < len(answers):
             x, y = answers[i], answers[i + 1]
             if a[0] == "q_csts":
                 x = ",".join(sorted(x[1:-1].split(","))); y = ",".join(sorted(y[1:-1].split(",")))
